@@ -31,7 +31,17 @@ use crate::{
 pub fn validate_jump_destination(counter: &RuntimeBoxedVal, vm: &mut VM) -> execution::Result<u32> {
     let instruction_pointer = vm.instruction_pointer()?;
     let jump_target = match counter.constant_fold().data() {
-        RSVD::KnownData { value, .. } => value.value_le().as_u32(),
+        RSVD::KnownData { value, .. } => {
+            // The whole 256-bit value is the target, so anything that does not fit into
+            // an offset in the instruction stream cannot exist as a target
+            match u32::try_from(value.value_le()) {
+                Ok(target) => target,
+                Err(_) => {
+                    return Err(execution::Error::InvalidOffsetForJump { data: *value }
+                        .locate(instruction_pointer));
+                }
+            }
+        }
         _ => {
             return Err(execution::Error::NoConcreteJumpDestination.locate(instruction_pointer));
         }
